@@ -70,3 +70,8 @@ func VV(m MaybeFloat) Float {
 //@   props C04
 //@   nopanic
 //@   inline
+
+// accessors of a property table read the table (tables of initial values are never mutated)
+//@ func (Properties).GetFontWeight
+//@   props C04
+//@   pure refs
